@@ -6,36 +6,39 @@ import SciVerif.Lemmas.C15c
 
 Only property theorems live here (helper lemmas are in `Lemmas/C15*.lean`).
 `parse`/`run`/`step` = the model of `DIP.parse` + `HierarchyList` + `BranchingList`
-(`Model/C15.lean`); `Items` = program trees, `render` = the lines of a tree under an
-arbitrary indentation oracle (the `extra` annotations), `sem` = the nodes of the selected
-clauses.  Every theorem quantifies over all trees (any nesting depth), all truth values,
-all indentation annotations.
+(`Model/C15.lean`); `Items` = program trees (node definitions, modifications, property lines
+below a node or on their own, groups, blocks in plain form or in compact form `parent.@case`),
+`render` = the lines of a tree under an arbitrary indentation oracle (the `extra`
+annotations), `sem` = the lines of the selected clauses.  Every theorem quantifies over all
+trees (any nesting depth), all truth values, all indentation annotations, all written parents.
 -/
 namespace SciVerif.C15
 
-/-- Main theorem.  For every program tree — any nesting of blocks and groups, any truth
-    assignment, any indentation oracle, blocks closed by `@end`, by the next clause, by
-    de-indentation over any number of levels or by the end of the text — the parser accepts
-    the rendered text and the node lines that take effect are exactly, and in order, the
-    nodes of the selected clauses (`sem`: first true clause of each block, else `@else`,
-    else nothing; a nested block counts only inside a selected clause). -/
+/-- Main theorem.  For every program tree — any nesting of blocks and groups, blocks written
+    plainly or in compact form with any dotted parent, any truth assignment, any indentation
+    oracle, blocks closed by `@end`, by the next clause, by a neighbouring block with another
+    parent, by de-indentation over any number of levels (by a node, a group or a property
+    line) or by the end of the text — the parser accepts the rendered text and the node and
+    property lines that take effect are exactly, and in order, the lines of the selected
+    clauses (`sem`: first true clause of each block, else `@else`, else nothing; a nested
+    block counts only inside a selected clause). -/
 theorem C15_effect_iff_selected (p : Items) : parse (p.render 0) = .ok (p.sem []) := by
   obtain ⟨s', hr, _, _⟩ := items_ok p 0 St.init [] []
-    (by intro b hb; simp at hb) (by intro b hb; simp at hb) rfl rfl (fun _ => rfl)
+    (by intro b hb; simp at hb) (by intro b hb; simp at hb) rfl rfl (fun _ _ => rfl)
   simp only [parse, hr]
   simp [falseCase, cleanName, fullName]
 
-/-- The "exactly when" reading, spelled out: list every node occurrence of the tree with, for
-    each enclosing clause, the flag "this clause is the selected one of its block" (`occ`);
-    the nodes that take effect are exactly the occurrences all of whose flags are true. -/
+/-- The "exactly when" reading, spelled out: list every node/property occurrence of the tree
+    with, for each enclosing clause, the flag "this clause is the selected one of its block"
+    (`occ`); the lines that take effect are exactly the occurrences all of whose flags are true. -/
 theorem C15_effect_iff_all_enclosing_selected (p : Items) :
     parse (p.render 0) = .ok (selectedOnly (p.occ [] [])) := by
   rw [C15_effect_iff_selected, Items.occ_sem]
   simp
 
 /-- The same inside any context: at any indent `k`, below any stack `B` of open branches and
-    any hierarchy `P`, the nodes of a rendered item sequence take effect iff every branch of
-    `B` has its current clause selected (`falseCase B = false`) — and then exactly the nodes
+    any hierarchy `P`, the lines of a rendered item sequence take effect iff every branch of
+    `B` has its current clause selected (`falseCase B = false`) — and then exactly the lines
     of the selected clauses do, under the cleaned hierarchical name of `P`; the enclosing
     stack and hierarchy are found unchanged afterwards. -/
 theorem C15_effect_iff_selected_nested (p : Items) (k : Nat) (s : St)
@@ -44,25 +47,25 @@ theorem C15_effect_iff_selected_nested (p : Items) (k : Nat) (s : St)
         .ok (s', if falseCase s.state then [] else p.sem (cleanName (fullName s.parents))) ∧
       closeGE k s'.state = s.state ∧ popGE k s'.parents = s.parents :=
   items_ok p k s s.state s.parents hB hP (closeGE_of_below hB) (popGE_of_below hP)
-    (fun _ => closeGE_of_below (hB.mono (Nat.le_succ k)))
+    (fun _ _ => closeFor_new (closeGE_of_below (hB.mono (Nat.le_succ k))) hB)
 
 /-- The hypotheses are satisfiable by non-trivial states: after `@case false` (resp. `@case true`)
     at indent 0 the state has one open branch; at indent 1 the theorem applies, with all
-    nodes skipped (resp. taken). -/
+    lines skipped (resp. taken). -/
 example :
-    (match run St.init [⟨0, "", .case false⟩] with
+    (match run St.init [⟨0, [], .case false⟩] with
       | .ok (s, _) => decide (s.state.length = 1 ∧ s.state.all (fun b => b.cur.indent < 1) ∧
           s.parents.all (fun p => p.1 < 1) ∧ falseCase s.state = true)
       | .error _ => false) = true ∧
-    (match run St.init [⟨0, "", .case true⟩] with
+    (match run St.init [⟨0, ["g"], .case true⟩] with
       | .ok (s, _) => decide (s.state.length = 1 ∧ s.state.all (fun b => b.cur.indent < 1) ∧
           s.parents.all (fun p => p.1 < 1) ∧ falseCase s.state = false)
       | .error _ => false) = true := by
   decide
 
-/-- Nodes outside a block are unaffected by what is inside it: whatever two items (e.g. two
-    blocks with different truth values, clauses and contents) stand between the item
-    sequences `A` and `C`, the nodes of `A` and `C` take effect identically; only the middle
+/-- Lines outside a block are unaffected by what is inside it: whatever two items (e.g. two
+    blocks with different truth values, clauses, parents and contents) stand between the item
+    sequences `A` and `C`, the lines of `A` and `C` take effect identically; only the middle
     part differs. -/
 theorem C15_outside_unaffected (A C : Items) (b₁ b₂ : Item) :
     parse ((A.append (.cons b₁ C)).render 0) = .ok (A.sem [] ++ b₁.sem [] ++ C.sem []) ∧
@@ -72,44 +75,98 @@ theorem C15_outside_unaffected (A C : Items) (b₁ b₂ : Item) :
     simp [Items.sem]
 
 /-- An unselected clause contributes nothing, whatever it contains (in particular a selected
-    clause of a block nested in it). -/
-theorem C15_unselected_contributes_nothing (e : Nat) (body rest : Items) (ee : Bool) :
-    parse ((Items.cons (.block false e body (.fin ee)) rest).render 0) = .ok (rest.sem []) := by
+    clause of a block nested in it, or property lines). -/
+theorem C15_unselected_contributes_nothing (pfx : List String) (e : Nat) (body rest : Items) (ee : Bool) :
+    parse ((Items.cons (.block pfx false e body (.fin ee)) rest).render 0) = .ok (rest.sem []) := by
   rw [C15_effect_iff_selected]
   simp [Items.sem, Item.sem, Chain.sem]
 
+/-- What stands inside an unselected clause is irrelevant altogether — other nodes, other
+    nested blocks, other truth values of the nested conditions, other indentation: the result
+    is the same for any two bodies. -/
+theorem C15_unselected_contents_irrelevant (pfx : List String) (e₁ e₂ : Nat) (body₁ body₂ : Items)
+    (more : Chain) (rest : Items) :
+    parse ((Items.cons (.block pfx false e₁ body₁ more) rest).render 0) =
+    parse ((Items.cons (.block pfx false e₂ body₂ more) rest).render 0) := by
+  rw [C15_effect_iff_selected, C15_effect_iff_selected]
+  simp [Items.sem, Item.sem]
+
+/-- … and the machine does not even look at such a condition (fix 790a797: `CaseNode.parse`
+    does not evaluate the expression when an enclosing case is unselected): in any state in
+    which some enclosing clause of a `@case` line is unselected, the step does not depend on
+    the truth value of its condition. -/
+theorem C15_condition_in_unselected_clause_not_evaluated (s : St) (k : Nat) (x : List String)
+    (c₁ c₂ : Bool) (h : falseCase (closeGE k s.state) = true) :
+    step s ⟨k, x, .case c₁⟩ = step s ⟨k, x, .case c₂⟩ := by
+  simp [step, h]
+
+example : (match run St.init [⟨0, [], .case false⟩] with
+    | .ok (s, _) => falseCase (closeGE 2 s.state)
+    | .error _ => false) = true := by decide
+
 /-- Only the first true clause counts: after a true clause nothing else of the block does. -/
-theorem C15_first_true_only (e : Nat) (body rest : Items) (more : Chain) :
-    parse ((Items.cons (.block true e body more) rest).render 0) = .ok (body.sem [] ++ rest.sem []) := by
+theorem C15_first_true_only (pfx : List String) (e : Nat) (body rest : Items) (more : Chain) :
+    parse ((Items.cons (.block pfx true e body more) rest).render 0) = .ok (body.sem pfx ++ rest.sem []) := by
   rw [C15_effect_iff_selected]
   simp [Items.sem, Item.sem]
 
+/-- Two neighbouring blocks in compact form with different parents are two blocks, although
+    no `@end`, node or group stands between them: a true clause of the first does not shadow
+    the second. -/
+theorem C15_compact_neighbours_independent (p q : List String) (hpq : p ≠ q) (e₁ e₂ : Nat)
+    (b₁ b₂ rest : Items) (m₂ : Chain) :
+    parse ((Items.cons (.block p true e₁ b₁ (.fin false))
+             (.cons (.block q true e₂ b₂ m₂) rest)).render 0)
+      = .ok (b₁.sem p ++ b₂.sem q ++ rest.sem []) ∧
+    (needsEnd (some p) (some q) = false) := by
+  refine ⟨?_, by simp [needsEnd, hpq]⟩
+  rw [C15_effect_iff_selected]
+  simp [Items.sem, Item.sem]
+
+/-- A property line written at the indent of a block that was closed only by indentation is
+    outside the block: it takes effect whatever the truth value of the block's clause. -/
+theorem C15_property_after_block (c : Bool) (e : Nat) (body rest : Items) (pk : PKind) (n : String) (v : Int) :
+    parse ((Items.cons (.node n false v [])
+             (.cons (.block [] c e body (.fin false)) (.cons (.prop pk) rest))).render 0)
+      = .ok (Eff.node [n] false v :: ((if c then body.sem [] else []) ++ Eff.prop pk :: rest.sem [])) := by
+  rw [C15_effect_iff_selected]
+  cases c <;> simp [Items.sem, Item.sem, Chain.sem]
+
 /-! Non-vacuity: a concrete program with nested blocks, a block closed by a two-level
-    de-indentation, and a forced `@end` — rendered, run and compared. -/
+    de-indentation, a forced `@end`, compact neighbours and property lines — rendered, run
+    and compared. -/
 def exampleProgram : Items :=
-  .cons (.block false 0 (.cons (.block true 1 (.cons (.node "b" false 2) .nil) (.fin false)) .nil)
-           (.els 0 (.cons (.node "a" false 1) .nil) false))
-  (.cons (.block true 0 (.cons (.node "c" false 3) .nil) (.fin false)) .nil)
+  .cons (.block [] false 0 (.cons (.block [] true 1 (.cons (.node "b" false 2 []) .nil) (.fin false)) .nil)
+           (.els 0 (.cons (.node "a" false 1 [(1, .constant)]) .nil) false))
+  (.cons (.block [] true 0 (.cons (.node "c" false 3 []) .nil) (.fin false))
+  (.cons (.block ["w"] true 0 (.cons (.node "n" false 4 []) .nil) (.fin false))
+  (.cons (.block ["v"] false 0 (.cons (.node "n" false 5 []) .nil) (.fin false))
+  (.cons (.prop (.tags "t")) .nil))))
 
 example : (match parse (exampleProgram.render 0) with | .ok o => some o | .error _ => none)
-      = some [⟨["a"], false, 1⟩, ⟨["c"], false, 3⟩] ∧ (exampleProgram.render 0).length = 8 := by
+      = some [.node ["a"] false 1, .prop .constant, .node ["c"] false 3, .node ["w", "n"] false 4,
+              .prop (.tags "t")] ∧ (exampleProgram.render 0).length = 14 := by
   decide
 
 /-! ## Misplaced `@else` / `@end` -/
 
 /-- For EVERY sequence of lines (not only rendered trees; any indents, any mixture of nodes,
-    groups and clause lines): if some `@else` has no open `@case` clause at its indent, or some
-    `@end` no open `@case`/`@else` clause at its indent, or some `@case` continues an `@else`
-    — "open at indent `k`" defined declaratively on the text: the latest earlier line indented
-    no deeper than `k` is such a clause line written at exactly `k` (`specOpenAt`) — then
-    parsing fails.  Covers `@else`/`@end` at the start, after `@end`, after a block closed by a
-    shallower or equally indented line, deeper than their `@case`, a second `@else`, a `@case`
-    after `@else`, and all of these inside unselected clauses. -/
+    groups, property lines and clause lines in plain or compact form): if some `@else` has no
+    open `@case` clause at its indent with the same written parent, or some `@end` no open
+    `@case`/`@else` clause at its indent with the same written parent, or some `@case`
+    continues an `@else` — "open at indent `k`" defined declaratively on the text: the latest
+    earlier line indented no deeper than `k` is such a clause line written at exactly `k`
+    (`specOpenAt`) — then parsing fails.  Covers `@else`/`@end` at the start, after `@end`,
+    after a block closed by a shallower or equally indented line (node, group or property),
+    deeper than their `@case`, a second `@else`, a `@case` after `@else`, `x.@else`/`x.@end`
+    after a block of another parent, and all of these inside unselected clauses. -/
 theorem C15_misplaced_rejected (ls : List Line) (h : misplaced ls = true) : parse ls = .error () := by
   have := run_misplaced inv_init h
   simp [parse, this]
 
-example : misplaced [⟨0, "", .case true⟩, ⟨2, "a", .node false 1⟩, ⟨0, "", .fin⟩, ⟨0, "", .els⟩] = true := by
+example : misplaced [⟨0, [], .case true⟩, ⟨2, ["a"], .node false 1⟩, ⟨0, [], .fin⟩, ⟨0, [], .els⟩] = true ∧
+    misplaced [⟨0, ["engine"], .case true⟩, ⟨2, ["a"], .node false 1⟩, ⟨0, ["wheels"], .els⟩] = true ∧
+    misplaced [⟨0, ["engine"], .case true⟩, ⟨2, ["a"], .node false 1⟩, ⟨0, ["wheels"], .fin⟩] = true := by
   decide
 
 /-- … and conversely the declarative notion is not too eager: the rendered lines of a
@@ -126,22 +183,22 @@ theorem C15_rendered_not_misplaced (p : Items) : misplaced (p.render 0) = false 
 /-- A clause after `@else`, as a statement about any machine state (reachable or not): if,
     after closing what is deeper, the block on top was written at this indent under the same
     parent and its current clause is `@else`, a further `@case` or `@else` there is refused. -/
-theorem C15_clause_after_else_rejected (s : St) (k : Nat) (x : String) (blk : Branch) (B : List Branch)
+theorem C15_clause_after_else_rejected (s : St) (k : Nat) (x : List String) (blk : Branch) (B : List Branch)
     (kw : Kw) (hkw : kw = .els ∨ ∃ c, kw = .case c)
     (hB : closeGE (k + 1) s.state = blk :: B) (hi : blk.cur.indent = k)
-    (hpath : blk.cur.path = fullName (popGE k s.parents)) (ht : blk.cur.ctype = .els) :
+    (hpath : blk.cur.path = fullName (popGE k s.parents) ++ nms x) (ht : blk.cur.ctype = .els) :
     step s ⟨k, x, kw⟩ = .error () :=
   step_after_else s k x blk B kw hkw hB hi hpath ht
 
 /-- Non-vacuity of the hypotheses above, and the whole-text version on an instance:
     `@case false` / `a` / `@else` / `a` / `@case true` is refused. -/
-example : (match run St.init [⟨0, "", .case false⟩, ⟨1, "a", .node false 1⟩, ⟨0, "", .els⟩, ⟨1, "a", .node false 2⟩] with
+example : (match run St.init [⟨0, [], .case false⟩, ⟨1, ["a"], .node false 1⟩, ⟨0, [], .els⟩, ⟨1, ["a"], .node false 2⟩] with
     | .ok (s, _) => (match closeGE 1 s.state with
-        | blk :: _ => decide (blk.cur.indent = 0 ∧ blk.cur.path = fullName (popGE 0 s.parents) ∧ blk.cur.ctype = .els)
+        | blk :: _ => decide (blk.cur.indent = 0 ∧ blk.cur.path = fullName (popGE 0 s.parents) ++ nms [] ∧ blk.cur.ctype = .els)
         | [] => false)
     | .error _ => false) = true ∧
-    (match parse [⟨0, "", .case false⟩, ⟨1, "a", .node false 1⟩, ⟨0, "", .els⟩, ⟨1, "a", .node false 2⟩,
-        ⟨0, "", .case true⟩, ⟨1, "a", .node false 3⟩] with | .ok _ => false | .error _ => true) = true := by
+    (match parse [⟨0, [], .case false⟩, ⟨1, ["a"], .node false 1⟩, ⟨0, [], .els⟩, ⟨1, ["a"], .node false 2⟩,
+        ⟨0, [], .case true⟩, ⟨1, ["a"], .node false 3⟩] with | .ok _ => false | .error _ => true) = true := by
   decide
 
 end SciVerif.C15
